@@ -418,3 +418,46 @@ package core
 // KNOWN FINDING (see /verif/known_findings.jsonl): for two negative numbers where the shorter digit string is a prefix of the
 // longer one (-12 and -12.5, -1200 and -1234) the packed order is the reverse of the value order
 //@ lemma! pack_order_neg_prefix(x dnum.Dnum, y dnum.Dnum): validDnum(x) && validDnum(y) && -128 <= x.exp && x.exp <= 127 && -128 <= y.exp && y.exp <= 127 && x.sign < 0 && y.sign < 0 && packedPrefix(x, y) ==> (dnLess(x, y) <==> packedLess(x, y))
+
+// ---- booleans, strings, dates, timestamps ---------------------------------------------------------
+//@ spec be32(e *pack.Encoder, l int, n int) bool = e.buf[l] == (n >> 24) % 256 && e.buf[l + 1] == (n >> 16) % 256 && e.buf[l + 2] == (n >> 8) % 256 && e.buf[l + 3] == n % 256
+//@ spec encGrown(e *pack.Encoder, k int) bool = len(e.buf) == old(len(e.buf)) + k && cap(e.buf) == old(cap(e.buf)) && ref(e.buf) == old(ref(e.buf)) && forall j :: 0 <= j && j < old(len(e.buf)) ==> e.buf[j] == old(e.buf[j])
+//@ func (b SuBool) PackSize(hash) (r)
+//@   ensures! r == 1
+//@ func (b SuBool) Pack(hash, buf)
+//@   requires buf != nil && len(buf.buf) + 1 <= cap(buf.buf)
+//@   modifies buf.buf, elems(buf.buf)
+//@   ensures! encGrown(buf, 1) && buf.buf[old(len(buf.buf))] == (b ? 1 : 0)
+//@ func (ss SuStr) PackSize(hash) (r)
+//@   ensures! r == (len(ss) == 0 ? 0 : 1 + len(ss))
+//@ func (ss SuStr) Pack(hash, buf)
+//@   requires buf != nil && len(buf.buf) + (len(ss) == 0 ? 0 : 1 + len(ss)) <= cap(buf.buf)
+//@   modifies buf.buf, elems(buf.buf)
+//@   ensures! empty: len(ss) == 0 ==> encGrown(buf, 0)
+//@   ensures! tagged: len(ss) > 0 ==> encGrown(buf, 1 + len(ss)) && buf.buf[old(len(buf.buf))] == 4 && forall k :: 0 <= k && k < len(ss) ==> buf.buf[old(len(buf.buf)) + 1 + k] == ss[k]
+//@ func (d SuDate) PackSize(hash) (r)
+//@   ensures! r == 9
+//@ func (d SuDate) Pack(hash, buf)
+//@   requires buf != nil && len(buf.buf) + 9 <= cap(buf.buf)
+//@   modifies buf.buf, elems(buf.buf)
+//@   ensures! encGrown(buf, 9) && buf.buf[old(len(buf.buf))] == 5 && be32(buf, old(len(buf.buf)) + 1, d.date) && be32(buf, old(len(buf.buf)) + 5, d.time)
+//@ func (d SuTimestamp) PackSize(hash) (r)
+//@   ensures! r == 10
+//@ func (d SuTimestamp) Pack(h, buf)
+//@   requires buf != nil && len(buf.buf) + 10 <= cap(buf.buf)
+//@   modifies buf.buf, elems(buf.buf)
+//@   panics_if d.extra == 0
+//@   ensures! encGrown(buf, 10) && buf.buf[old(len(buf.buf))] == 5 && be32(buf, old(len(buf.buf)) + 1, d.SuDate.date) && be32(buf, old(len(buf.buf)) + 5, d.SuDate.time) && buf.buf[old(len(buf.buf)) + 9] == d.extra
+//@ spec dec32(s string, i int) int = s[i] * 16777216 + s[i + 1] * 65536 + s[i + 2] * 256 + s[i + 3]
+//@ func UnpackTimestamp(sd, d) (r)
+//@   requires d != nil && len(d.s) >= 1
+//@   modifies d.s
+//@   panics_if d.s[0] == 0
+//@   ensures! r.SuDate == sd && r.extra == old(d.s[0])
+//@ func UnpackDate(s) (r)
+//@   requires len(s) == 9 || len(s) == 10
+//@   panics_if len(s) == 10 && s[9] == 0
+//@   ensures! date: len(s) == 9 ==> typeis(r, "SuDate") && unbox(r, "SuDate").date == dec32(s, 1) && unbox(r, "SuDate").time == dec32(s, 5)
+//@   ensures! timestamp: len(s) == 10 ==> typeis(r, "SuTimestamp") && unbox(r, "SuTimestamp").SuDate.date == dec32(s, 1) && unbox(r, "SuTimestamp").SuDate.time == dec32(s, 5) && unbox(r, "SuTimestamp").extra == s[9]
+// big endian: the four bytes written for n decode back to n, and byte order is numeric order (util/pack lemmas uint32_roundtrip, uint32_order)
+//@ lemma! date_bytes_roundtrip(n uint32): ((n >> 24) % 256) * 16777216 + ((n >> 16) % 256) * 65536 + ((n >> 8) % 256) * 256 + n % 256 == n
